@@ -20,12 +20,12 @@ CHECKS = {
  "C02": dict(
    category="model_checking", design_ref="DESIGN.md §3 C02, §2.3, §2.6",
    technique="stateless exhaustive exploration of 60 real text-parsing entry points over full input tries (native character-class alphabets to length N, token/line sequences), pumped inputs under a loop-tick budget, allocation cap and stall watchdog, and k-deviation corrupted typed documents",
-   text="For each of 60 entry points (deb822 documents/paragraphs, relationship fields, control/apt/changes/buildinfo/removal files, copyright, DEP-3, APT sources, PGP unwrapping, VCS fields, identities and every typed field value): every string over its native character-class alphabet up to length 5/4/4 (thorough 6/5/5; 84M calls), every sequence of its line templates or tokens up to 2-3 (thorough 3-4) symbols, pumped inputs w^k (all w to length 2-3, k up to 64/512), unbalanced nests and 20-100 kB single lines, and for typed documents the all-valid document with <= 1 (thorough 2) fields absent or replaced by 7 garbage values. Every call must return Ok or Err: a panic, a parser loop exceeding the quadratic tick budget, the 2 GiB allocation cap, a 60 s stall or 10 s on a pumped input is a violation.",
+   text="For each of 60 entry points (deb822 documents/paragraphs, relationship fields, control/apt/changes/buildinfo/removal files, copyright, DEP-3, APT sources, PGP unwrapping, VCS fields, identities and every typed field value): every string over its native character-class alphabet up to length 5/4/4 (thorough 6/5/5; 84M calls), every sequence of its line templates or tokens up to 2-3 (thorough 3-4) symbols, pumped inputs w^k (all w to length 2-3, k up to 64/512), unbalanced nests and 20-100 kB single lines, for the VCS-location codecs every sequence of 4-6 tokens of the value grammar, and for typed documents the all-valid document with <= 1 (thorough 2) fields absent or replaced by 7 garbage values or up to 6 near-valid values (pieces of the field's own valid values). Every call must return Ok or Err: a panic, a parser loop exceeding the quadratic tick budget, the 2 GiB allocation cap, a 60 s stall or 10 s on a pumped input is a violation.",
    note="Dependencies (regex, url, chrono, debversion, rowan) carry no tick sites: hangs there are caught by watchdog/time limit only. The polynomial-time clause is decided against a fixed quadratic envelope (DESIGN §5)."),
  "C03": dict(
    category="exploration", design_ref="DESIGN.md §3 C03, §2.4",
    technique="bounded exhaustive enumeration (all layout vectors with <= k deviations per PxF skeleton) of generated documents carrying their intended reading, executed on the real strict reader",
-   text="Every document whose layout differs from the simplest one in at most k slots (k=2 quick; 3-4 thorough; 9 skeletons of 1-3 paragraphs x 1-3 fields; slots: comments, names incl. duplicates and odd characters, colon spacing, first/continuation lines, indents, separators, trivia, final newline) is generated together with its model and read by the strict reader; paragraphs, items, keys, get/get_all/contains_key and Paragraph::from_str are compared with the model; every k<=1 document with one junk line inserted at every position must be rejected. Complete for all k-way interactions of layout choices, which unit tests sample one at a time.",
+   text="Every document whose layout differs from the simplest one in at most k slots (k=2 quick; 3-4 thorough; 9 skeletons of 1-3 paragraphs x 1-3 fields; slots: comments, names incl. duplicates and odd characters, colon spacing, first/continuation lines, indents, separators, trivia, final newline) is generated together with its model and read by the strict reader; paragraphs, items, keys, get/get_all/contains_key and Paragraph::from_str are compared with the model; every k<=1 document with one junk line inserted at every position must be rejected; every printable ASCII character that deb822 allows in (and at the start of) a field name is accepted there. Complete for all k-way interactions of layout choices, which unit tests sample one at a time.",
    note="Model decisions in DESIGN §3 C03 (value = non-empty lines). Field names/values outside the menus are not explored."),
  "C04": dict(
    category="model_checking", design_ref="DESIGN.md §3 C04, §2.5",
@@ -50,7 +50,7 @@ CHECKS = {
  "C10": dict(
    category="exploration", design_ref="DESIGN.md §3 C10, §2.4",
    technique="bounded exhaustive enumeration (k-deviation over all slots of ExA skeletons + full product of relation parts) of generated relationship fields carrying their intended reading, executed on both real readers",
-   text="Every relationship field with <= k deviations (k=1-2 quick, 2-3 thorough) over entry kind (relation/empty/substvar), separator whitespace incl. newlines, trailing comma and, per relation, name, qualifier, 5 operators x 3 versions (epoch, '~'), plain and negated architecture lists, single/multi-term/negated profile groups and inter-part whitespace - plus the full 2700-relation product for one-relation fields x every single whitespace deviation - is read by the lossless reader (strict and tolerant, substvars on/off) and the lossy reader; entries, alternatives and every component must equal the model.",
+   text="Every relationship field with <= k deviations (k=1-2 quick, 2-3 thorough) over entry kind (relation/empty/substvar), separator whitespace incl. newlines, trailing comma and, per relation, name, qualifier, 5 operators x 3 versions (epoch, '~'), plain and negated architecture lists, single/multi-term/negated profile groups and inter-part whitespace - plus the full 2700-relation product for one-relation fields x every single whitespace deviation - is read by the lossless reader (strict and tolerant, substvars on/off) and the lossy reader; entries, alternatives and every component must equal the model; every identifier character (alphanumerics, - . + ~) is read back inside a name and inside a version.",
    note="Whitespace is varied only where the statement allows; names/versions outside the menus are not explored."),
  "C11": dict(
    category="model_checking", design_ref="DESIGN.md §3 C11, §2.5",
@@ -60,7 +60,7 @@ CHECKS = {
  "C12": dict(
    category="exploration", design_ref="DESIGN.md §3 C12",
    technique="exhaustive enumeration of the complete (operator x required x installed) table over a version pool with hard-coded Debian order, and of every AND/OR shape up to 3-4 entries x 3 alternatives, through all evaluators and lookup forms",
-   text="Complete single-relation table: {unversioned, <<, <=, =, >=, >>} x required x installed-or-absent over 7 (thorough 10) versions with epochs, revisions, '~' and '+' whose order is hard-coded from deb-version(7) - evaluated by lossless Relations/Entry and lossy Relations/Relation through closure, HashMap and (name, version) lookups, and lookup_version itself on all three forms. Nesting: every field of <= 3 (thorough 4) entries x 1-3 alternatives where each alternative is satisfied / version-mismatched / absent (61k / 2.4M fields) plus the empty field, against all(any(..)).",
+   text="Complete single-relation table: {unversioned, <<, <=, =, >=, >>} x required x installed-or-absent over 7 (thorough 10) versions with epochs, revisions, '~' and '+' whose order is hard-coded from deb-version(7) - evaluated by lossless Relations/Entry and lossy Relations/Relation through closure, HashMap and (name, version) lookups, and lookup_version itself on all three forms. Nesting: every field of <= 3 (thorough 4) entries x 1-3 alternatives where each alternative is satisfied / version-mismatched / absent (61k / 2.4M fields) plus the empty field, against all(any(..)); and every entry of 1-3 alternatives on the SAME package (18 constraints each) x 5 installed states. The pool contains explicit zero epochs that equal the epoch-less version.",
    note="The hard-coded version order is the trusted reference."),
  "C13": dict(
    category="exploration", design_ref="DESIGN.md §3 C13",
@@ -70,7 +70,7 @@ CHECKS = {
  "C08": dict(
    category="model_checking", design_ref="DESIGN.md §3 C08",
    technique="exhaustive product enumeration of lossy documents through print and both readers, plus explicit-state breadth-first search of paragraph edit histories with an exact state cache (the field vector) against a Vec model",
-   text="Print/parse: the full product of lossy documents over 3 names x 13 canonical values (empty value, trailing spaces, Unicode, ':'/'#' inside and leading, multi-line, empty first line, '.' lines) for 1 paragraph x 1-3 fields and 2-3 paragraphs x 1 field (thorough also 2x2: 2.3M documents) is printed and must be re-read as an equal value by the lossy reader, with the same names and non-blank lines by the lossless reader, paragraphs separated by exactly one blank line. Edits: every history of set/insert/remove (3 names x 2 values, with get/len/iter observed after each step) to depth 4 (thorough 6) from 6 initial paragraphs is explored breadth-first against a Vec<(name,value)> model.",
+   text="Print/parse: the full product of lossy documents over 3 names x 16 canonical values (empty value, trailing spaces, Unicode, ':'/'#' inside and leading, multi-line, empty first line, '.' lines) for 1 paragraph x 1-3 fields and 2-3 paragraphs x 1 field (thorough also 2x2: 2.3M documents) is printed and must be re-read as an equal value by the lossy reader, with the same names and non-blank lines by the lossless reader, paragraphs separated by exactly one blank line. Edits: every history of set/insert/remove (3 names x 2 values, with get/len/iter observed after each step) to depth 4 (thorough 6) from 6 initial paragraphs is explored breadth-first against a Vec<(name,value)> model.",
    note="lossy::Deb822 has no public constructor; documents are built by parsing a skeleton and replacing the public field vectors. Values outside the menu are not explored."),
  "C09": dict(
    category="model_checking", design_ref="DESIGN.md §3 C09, §2.3",
@@ -80,17 +80,17 @@ CHECKS = {
  "C14": dict(
    category="exploration", design_ref="DESIGN.md §3 C14",
    technique="exhaustive enumeration of the full product of lossy relation values (720 single relations; all fields of <= 2-3 entries x <= 2 alternatives over a 12-value subset) through print, both readers and the lossy<->lossless conversions",
-   text="Every lossy Relation over 2 names x qualifier x 3 version shapes (incl. epoch) x 6 architecture lists (absent, empty, plain, negated) x 4 profile-group shapes, and every Relations value of <= 2 (thorough 3) entries x <= 2 alternatives over 12 representative relations, is printed; the lossy reader must return an equal value, the lossless reader the same structure, lossless::Relation::from(v) must print the same text, lossy::Relation::from(lossless::Relation::from(v)) and Entry<->Vec<Relation> must be identities.",
+   text="Every lossy Relation over 2 names x qualifier x 3 version shapes (incl. epoch) x 6 architecture lists (absent, empty, plain, negated) x 71 profile lists (every group shape of 1-3 terms with every negation pattern, one or two groups), and every Relations value of <= 2 (thorough 3) entries x <= 2 alternatives over 12 representative relations, is printed; the lossy reader must return an equal value, the lossless reader the same structure, lossless::Relation::from(v) must print the same text, lossy::Relation::from(lossless::Relation::from(v)) and Entry<->Vec<Relation> must be identities.",
    note="Component strings outside the menus are not explored."),
  "C15": dict(
    category="exploration", design_ref="DESIGN.md §3 C15",
    technique="exhaustive enumeration of the full product (accessor pair x value menu x 6 prior paragraph states), of all ordered setter pairs per view and of a raw-text reading table, executed on the real typed views; field names in the table are written from Debian documentation, not from the code",
-   text="146 getter/setter pairs (control Source/Binary, apt Source/Package/Release, Changes, Buildinfo, copyright Header/FilesParagraph, DEP-3 PatchHeader) x 2-3 valid values (plus clearing where the setter takes an Option) x 6 prior states (field absent; present with another value; present with comments around it and a field after; fields before and after; in a two-paragraph document after / before a paragraph of another kind): the getter must return the value (live and after printing + re-reading), exactly one field of the documented Debian name must hold it (none after clearing), every other field, paragraph and comment must be unchanged. Every ordered pair of setters of a view is applied in sequence. 75 reading rows check getters on raw text (comma/space/line lists, yes/no flags, checksum triples, description lines, source/binary classification).",
+   text="146 getter/setter pairs (control Source/Binary, apt Source/Package/Release, Changes, Buildinfo, copyright Header/FilesParagraph, DEP-3 PatchHeader) x 2-3 valid values (plus clearing where the setter takes an Option) x 6 prior states (field absent; present with another value; present with comments around it and a field after; fields before and after; in a two-paragraph document after / before a paragraph of another kind): the getter must return the value (live and after printing + re-reading), exactly one field of the documented Debian name must hold it (none after clearing), every other field, paragraph and comment must be unchanged, and other accessors reading another part of the same field keep their reading. Every ordered pair of setters of a view is applied in sequence. 75 reading rows check getters on raw text (comma/space/line lists, yes/no flags, checksum triples, description lines, source/binary classification).",
    note="Trusted base: the hand-written field names and expected readings (from Policy, deb822/deb-src-control man pages, DEP-3, DEP-5, repository format). Empty lists, case-insensitive field-name lookup and readings the statement does not document were removed from the table after triage (DESIGN §3 C15)."),
  "C16": dict(
    category="exploration", design_ref="DESIGN.md §3 C16",
    technique="exhaustive enumeration over programs (16 single-field structs = every field shape the derive macro distinguishes, one 16-field struct, all 12 shipped deriving structs) x presence/value vectors within k deviations of two baselines x both paragraph back-ends x update priors",
-   text="Programs: one struct per combination of mandatory/optional x default/renamed key x default/custom serialiser x default/custom deserialiser (16), a struct with all 16 shapes, and every deriving struct in the workspace (lossy control Source/Binary, apt Release/Source/Package, Buildinfo, Removal, copyright Header/Files/Licence paragraphs, DEP-3 PatchHeader, apt-sources Repository). For every presence/value vector within 2 (thorough 3) deviations of the all-mandatory and all-present baselines: to_paragraph lists exactly the present fields in declaration order under the configured names with values through the codecs, from_paragraph(to_paragraph(x)) == x, both back-ends agree; for <= 1 deviation also update_paragraph onto 4 prior contents (empty, own fields with other values, own fields interleaved with foreign fields/comments/odd spacing, every optional present) on both back-ends (reads back equal, absent optionals removed, own fields once, foreign lines byte-identical in order), each mandatory field deleted and each field corrupted must give an error naming the field.",
+   text="Programs: one struct per combination of mandatory/optional x default/renamed key x default/custom serialiser x default/custom deserialiser (16), a struct with all 16 shapes, and every deriving struct in the workspace (lossy control Source/Binary, apt Release/Source/Package, Buildinfo, Removal, copyright Header/Files/Licence paragraphs, DEP-3 PatchHeader, apt-sources Repository). For every presence/value vector within 2 (thorough 3) deviations of the all-mandatory and all-present baselines: to_paragraph lists exactly the present fields in declaration order under the configured names with values through the codecs, from_paragraph(to_paragraph(x)) == x, both back-ends agree; for <= 1 deviation also update_paragraph onto 5 prior contents (empty, own fields with other values, own fields interleaved with foreign fields/comments/odd spacing, every optional present, an unterminated paragraph holding only the later-declared half) on both back-ends (reads back equal, absent optionals removed, own fields once, foreign lines byte-identical in order), each mandatory field deleted and each field corrupted must give an error naming the field.",
    note="Field tables (names, valid/invalid raw values, comparison mode) are hand-written from the struct definitions; hash-ordered collections carry one element."),
  "C17": dict(
    category="exploration", design_ref="DESIGN.md §3 C17",
@@ -105,12 +105,12 @@ CHECKS = {
  "C19": dict(
    category="fault_enumeration", design_ref="DESIGN.md §3 C19",
    technique="exhaustive fault enumeration: for every message of a bounded family, every line truncation, every byte truncation (small sub-family), every trailing addition; reference computed from construction offsets",
-   text="Message family: every sequence of <= 2 armour headers x every sequence of <= 3 (thorough 4) payload lines from 7 templates (empty line, deb822 field, indented line, two marker look-alikes, header look-alike, Unicode) x every sequence of <= 2 signature lines. For every message: the intact message must unwrap to exactly (payload, concatenated signature lines); the payload alone must pass through unchanged; truncation after every line and (for <= 1 header, <= 2 payload lines, <= 1 signature line) at every byte must give MissingPayload / MissingPgpSignature / TruncatedPgpSignature according to where the cut falls relative to the blank line / BEGIN / END markers (a cut inside the first marker line is passthrough); each of 4 trailing additions must give JunkAfterPgpSignature.",
+   text="Message family: every sequence of <= 2 armour headers x every sequence of <= 3 (thorough 4) payload lines from 13 templates (empty line, deb822 field, indented line, header look-alike, Unicode, and each of the three markers behind a letter / blank / tab or followed by a blank) x every sequence of <= 2 signature lines. For every message: the intact message must unwrap to exactly (payload, concatenated signature lines); the payload alone must pass through unchanged; truncation after every line and (for <= 1 header, <= 2 payload lines, <= 1 signature line) at every byte must give MissingPayload / MissingPgpSignature / TruncatedPgpSignature according to where the cut falls relative to the blank line / BEGIN / END markers (a cut inside the first marker line is passthrough); each of 4 trailing additions must give JunkAfterPgpSignature.",
    note="Payload lines are LF-terminated and never start with '-', as the statement requires."),
  "C20": dict(
    category="exploration", design_ref="DESIGN.md §3 C20",
    technique="exhaustive enumeration of typed documents (paragraph sequences x k-deviation field vectors x 4 layouts) from hand-written field tables through parse, field-wise comparison with the lossless reader, print, re-parse and re-print; plus every structurally invalid variant",
-   text="Nine document kinds (lossy control file, copyright file, apt Sources/Packages/Release stanza, removal record, lossy buildinfo, DEP-3 header, APT sources list): every paragraph sequence of the kind's shape list (source before/between/after up to 2 binaries; header + Files/licence paragraphs in 8 orders; 1-2 repositories) x every presence/value vector within 1 (thorough 2) deviations of the all-mandatory and all-present baselines x 4 layouts (comments, blank-line variants) is parsed; roles must be assigned by the distinguishing fields, every field must carry what the lossless reader shows for the same text (through the type's codec), the print must re-parse to an equal value and print identically again; each mandatory field deleted in turn and 12 structurally invalid texts (no/two source paragraphs, paragraph of neither kind, missing Format, ...) must be rejected.",
+   text="Nine document kinds (lossy control file, copyright file, apt Sources/Packages/Release stanza, removal record, lossy buildinfo, DEP-3 header, APT sources list): every paragraph sequence of the kind's shape list (source before/between/after up to 2 binaries; header + Files/licence paragraphs in 8 orders; 1-2 repositories) x every presence/value vector within 1 (thorough 2) deviations of the all-mandatory and all-present baselines x 4 layouts (comments, blank-line variants) is parsed; roles must be assigned by the distinguishing fields, every field must carry what the lossless reader shows for the same text (through the type's codec), the print must re-parse to an equal value and print identically again; documented alias fields (DEP-3 From/Subject) instead of / next to the canonical field; each mandatory field deleted in turn and 12 structurally invalid texts (no/two source paragraphs, paragraph of neither kind, missing Format, ...) must be rejected.",
    note="Types without Display print through to_paragraph::<lossy::Paragraph>(); hash-ordered collections carry one element in generated documents (their print order was fixed to be sorted)."),
 }
 
